@@ -51,6 +51,10 @@ class Box:
     def n_kept(self):
         return len(self.items)
 
+    def call_kept(self, i, method, *args, **kwargs):
+        # use a stored proxy inside the server process (server-side proxies call the hosting server directly)
+        return getattr(self.items[i], method)(*args, **kwargs)
+
     def make_own_list(self, n):
         # the hosted value stays reachable inside the server: mutations through the returned proxy must be visible here
         self.own = list(range(n))
